@@ -103,6 +103,16 @@ def run(tier, seed, rep):
               "massOk": False, "massText": [0, 0], "massComp": [0, 0]}
         if o == "ret":
             ev["text"] = r_[0]
+            if i % 2:
+                # the text was parsed before and the earlier result was edited (by the caller, by the library's own
+                # relabelling of a parsed formula): a parse is a function of the text
+                def warm():
+                    d0 = pp.parse_chem_formula(r_[0], sep=sep)
+                    if sep == "":
+                        pp.apply_isotope_mods_to_composition(r_[0], ["13C", "15N"])
+                    d0.clear()
+                    d0["EDIT"] = 1
+                call(warm)
             o2, p2 = call(lambda: pp.parse_chem_formula(r_[0], sep=sep))
             ev["out"] = o2
             if o2 == "ret":
